@@ -99,6 +99,45 @@ CHECKS["C16"] = (
     LEVEL_NOTE_COMMON + "JWE, jti/exp/nbf of request objects, URI normalisation (C06) and PAR client authentication (C01) not modelled.",
     "DESIGN.md §6 C16")
 
+CHECKS["C18"] = (
+    "Rocq proof (subject-type theorems over an abstract collision-free hash) + vm_compute correspondence with hashlib digests + four-release-point oracle on real flows",
+    "Theorems (Props/C18.v, closed): the subject is a function of (registered type, user, salt, sector) only (C18_stable); public subjects "
+    "are equal across clients; pairwise subjects of one user are equal iff the sector hosts are equal (needs the hash injective); "
+    "ephemeral subjects differ per grant; the type comes from the client's registration; a hexdigest cannot contain a user id that has a "
+    "non-hex character (C18_opaque_partial). Consistency of the four release points (ID Token, userinfo, JWT access token, introspection) "
+    "is decided on the real endpoints: every grant of generated login sequences is read at all four and compared; the observed sub must "
+    "equal the model's (SHA-256 via hashlib tables). A static source tie checks that each release point still reads grant.sub.",
+    LEVEL_NOTE_COMMON + "SHA-256 idealised as injective; urlparse().hostname is an environment function; uuid4 freshness assumed. Partial: "
+    "consistency is oracle-decided, opacity is proved for user ids with a non-hex character.",
+    "DESIGN.md §6 C18")
+CHECKS["C19"] = (
+    "Rocq proof (decision table by finite enumeration + factoring lemma, rollback, uniqueness by induction over histories, read isolation) + vm_compute correspondence on the real registration/read endpoints + rule oracle",
+    "Theorems (Props/C19.v, 12, closed) over Model/Registration.v + Model/RegUri.v: an accepted registration's redirect URIs obey the "
+    "application-type/response-type rule (whole finite abstraction decided by vm_compute, concrete URIs factor through it); any answer other "
+    "than 201 leaves cdb, registration tokens and key-jar owners unchanged; client ids are pairwise distinct and new over any history; the "
+    "secret/token/id are the provider's draws; the response echoes the stored record; the read endpoint answers only for the token's own "
+    "client. Correspondence: 600-cell URI matrix (exhaustive), metadata single faults, random histories with id collisions, all token x "
+    "client pairings.",
+    LEVEL_NOTE_COMMON + "sector_identifier_uri, non-ASCII URIs, jwks internals are Unmodelled (oracle only).",
+    "DESIGN.md §6 C19")
+CHECKS["C15"] = (
+    "Rocq proof (both PKCE legs as decision functions over an arbitrary hash; tables regenerated from CC_METHOD on every run) + vm_compute correspondence through the real endpoints and the real RP add-on",
+    "Theorems (Props/C15.v, closed): tokens issued for a code whose authorization request stored challenge c imply a verifier that the "
+    "RECORDED method maps to c (C15_bound, C15_tokens_iff); missing/wrong verifier refused; essential flag truth table (per-client overrides "
+    "global); no downgrade through the token request; RP-produced pairs are accepted for every non-empty verifier and shared method; client and "
+    "provider transform tables agree (over tables regenerated from the source). Correspondence ~7k traces on 9 real provider configurations.",
+    LEVEL_NOTE_COMMON + "The hash is an arbitrary function (injective where stated). A configured code_challenge_length of 0 is outside the RP-agree domain (DESIGN.md).",
+    "DESIGN.md §6 C15")
+CHECKS["C17"] = (
+    "Rocq proof (round trip per protection mode with exact guards, Dolev-Yao tamper evidence over Lib/Crypto) + vm_compute correspondence on real CookieHandlers with exhaustive boundary-shift mutations",
+    "Theorems (Props/C17.v, closed): make-then-parse returns (value, type, timestamp) in signed, signed+encrypted, encrypted and encrypter "
+    "modes for unrestricted values (guards only on the type/timestamp, each with a _refuted witness reproduced on the real code); with the "
+    "handler keys unpublished, any derivable cookie that parses has the content of a genuine cookie (four tamper-evidence theorems). "
+    "client/cookie.py: round trip + partial tamper theorem with _refuted witness (known findings client-cookie-boundary-shift, "
+    "client-cookie-rt-bar).",
+    LEVEL_NOTE_COMMON + "HMAC, AES-GCM and Fernet idealised (symbolic); byte-level mutations are exercised, not proved.",
+    "DESIGN.md §6 C17")
+
 NOT_YET = "not claimed in this snapshot: its model/theorems/driver are not built yet (DESIGN.md §9 build order); no check is registered rather than a weaker technique"
 
 
